@@ -254,7 +254,14 @@ def run(ctx, cases_override=None):
     broken = []
     ok, out, nthm = C.check_props(ctx)
     if not ok:
-        broken.append("Props/C03.v does not check: " + out[-600:])
+        broken.append("Props/C03*.v do not check: " + out[-600:])
+    # Fourier part of the lattice sum: closed form proved in Props/C03fourier.v; tie to the compiled extension
+    # (fourier_array read back, C derivative vs recomputed loops, interval lemmas) — registers its own violations
+    fourier_counts = None
+    if cases_override is None:
+        import c03fourier
+        fourier_counts = c03fourier.check_fourier(ctx)
+        ctx.notes.append("fourier part: %r" % (fourier_counts,))
     N = ctx.n(300, 5000)
     if cases_override is not None:
         cases = cases_override
